@@ -1686,7 +1686,7 @@ Theorem rs_among_others_delivers E parse_fdt cfg oti content rep toi md5 now pf 
   fdt_pkt_ok pf id foti d -> parse_fdt d = Some inst -> fdt_live cfg inst pf now ->
   fdt_entry_for (fi_files inst) (fi_oti inst) toi oti L md5 ->
   writer_accepts E toi -> writes_succeed E toi -> md5_good E content md5 ->
-  rs_oracle_mds E oti content rep toi ->
+  rs_oracle_mds E oti content rep toi -> rs_rep_sized oti rep ->
   rs_mem_need oti L <= cf_max_cache cfg -> nb_blocks_of oti L <= 4097 ->
   Forall (fun p => a_toi p <> 0) pkts ->
   let mine := filter (fun p => a_toi p =? toi) pkts in
@@ -1696,7 +1696,7 @@ Theorem rs_among_others_delivers E parse_fdt cfg oti content rep toi md5 now pf 
   let '(_, r, c) := recv_run E parse_fdt cfg recv0 (map (fun p => RvPush p now) (pf :: pkts)) ctx0 in
   multi_delivered cfg inst content toi r c.
 Proof.
-  intros L (Hrsf & He & Hb & HL & Hu) Hrs Htoi Hpf Hparse Hlive (f & F1 & F2 & F3 & F4 & F5) Hacc Hwr Hmd5 Hor Hmax Hn Z mn G Cl Rec.
+  intros L (Hrsf & He & Hb & HL & Hu) Hrs Htoi Hpf Hparse Hlive (f & F1 & F2 & F3 & F4 & F5) Hacc Hwr Hmd5 Hor Hrz Hmax Hn Z mn G Cl Rec.
   destruct (rs_is_cls oti Hrsf) as [Hcls Hfec].
   destruct (partition_of oti L) as [[[al as_] nal] n] eqn:Hpart.
   pose proof (top_sound E oti content rep toi al as_ nal n Hcls He Hb HL Hpart (rs_oracle_mds_sound _ _ _ _ _ Hor)) as Hsound.
@@ -1710,7 +1710,7 @@ Proof.
     apply (rs_blocks_ok_spec oti L); assumption. }
   assert (G' : Forall (genr oti content rep al as_ nal n) mn).
   { pose proof (rs_genuine_pkt_spec oti content rep al as_ nal n mn Hpart G) as G1. eapply Forall_impl; [|exact G1].
-    intros p Hp. split; [exact Hp|apply rs_sized_trivial; exact Hrsf]. }
+    intros p Hp. split; [exact Hp|exact (rs_genuine_sized oti content rep al as_ nal n p Hrsf Hrz Hp)]. }
   pose proof (rs_multi_core E parse_fdt cfg oti content rep toi md5 al as_ nal n now Hfec He Hb HL Hu Hpart' Htoi Hsound HM Nc Hacc
                 id inst f F1 F2 F3 F4 F5 pf foti d Hpf Hparse Hlive pkts Z G') as D.
   assert (D' : let '(_, r, c) := recv_run E parse_fdt cfg recv0 (map (fun p => RvPush p now) (pf :: pkts)) ctx0 in
